@@ -213,8 +213,7 @@ class ExprOps:
                 b2 = SV('list', elems=b.elems, seq=(b.seq if b.elems is None else None) if b.kind == 'tuple' or b.owned else None,
                         owned=True, ty=b.ty) if (b.kind == 'tuple' or b.owned) else SV('list', seq=self.seq_of(b), owned=True, ty=b.ty)
                 return self.seq_concat(a2, b2)
-            self.st.oblige(FALSE, 'TypeError: + on %s and %s' % (a.kind, b.kind), getattr(node, 'lineno', 0))
-            raise PathInfeasible()
+            self.fail('TypeError', '+ on %s and %s' % (a.kind, b.kind), getattr(node, 'lineno', 0))
         if isinstance(op, ast.Sub) and a.kind == 'int' and b.kind == 'int':
             return self.mk_int(mk_sub(a.term, b.term))
         if isinstance(op, ast.Mult):
@@ -573,8 +572,7 @@ class ExprOps:
         if base.kind == 'val':
             base = self.narrow(base)
         if base.kind == 'none':
-            self.st.oblige(FALSE, "AttributeError: None.%s" % attr, getattr(node, 'lineno', 0))
-            raise PathInfeasible()
+            self.fail('AttributeError', "None.%s" % attr, getattr(node, 'lineno', 0))
         if base.kind == 'ref':
             classes = self.ref_classes(base.ty)
             ic = self.init_const(classes, attr)
@@ -737,8 +735,7 @@ class ExprOps:
                 st.oblige(mk_and(mk_le('0', it), mk_lt(it, ln)), 'string index in range', node.lineno)
             return self.mk_str("(str.at %s %s)" % (base.term, it))
         if base.kind == 'none':
-            st.oblige(FALSE, 'TypeError: None is not subscriptable', node.lineno)
-            raise PathInfeasible()
+            self.fail('TypeError', 'None is not subscriptable', node.lineno)
         raise Unsupported('subscript of %s' % base.kind, node)
 
     def slice_of(self, base, sl, node):
@@ -843,7 +840,7 @@ class ExprOps:
             st.env = saved
             return SV('list', elems=out, owned=True, ty=parse_ty('list'))
         if g.ifs:
-            raise Unsupported('filtered comprehension over a symbolic sequence', node)
+            return self.filter_comprehension(node, elt, g, it)
         # symbolic map: fresh sequence with a pointwise definition
         n = it['count']
         j = st.decls.bound_var('cj')
@@ -900,3 +897,50 @@ class ExprOps:
         ety = val.ty if val.kind != 'val' else val.ty
         lty = frozenset([('list', ety if ety else ANY)])
         return SV('list', ty=lty, seq=q, owned=True, extra={'map': (j, bval, side)})
+
+    def filter_comprehension(self, node, elt, g, it):
+        """[x for x in xs if p(x)] over a symbolic sequence: a fresh sequence that is an order-preserving
+        sub-sequence of xs all of whose elements satisfy p.  (That *every* satisfying element is kept is not
+        expressed -- callers needing completeness must go through a contract.)"""
+        st = self.st
+        if not (isinstance(elt, ast.Name) and isinstance(g.target, ast.Name) and elt.id == g.target.id) or st.decls.bound:
+            raise Unsupported('filtered comprehension that also maps', node)
+        if 'seq' not in it:
+            raise Unsupported('filtered comprehension over a derived iterable', node)
+        src = it['seq']
+        q = st.decls.const('qfilt', 'Int')
+        f = st.decls.bound_var('fidx')
+        st.decls.fun(f, ['Int'], 'Int')
+        j = st.decls.bound_var('fj')
+        st.decls.bound.append(j)
+        saved = dict(st.env)
+        mark = len(st.pc)
+        try:
+            item = it['item']("(%s %s)" % (f, j))
+            self.bind_target(g.target, item)
+            conds = []
+            refined = item
+            for c in g.ifs:
+                t, rt, rf = self.cond(c)
+                conds.append(t)
+                for nm, sv in rt:
+                    if nm == g.target.id:
+                        refined = sv
+            side = [t for t, k in st.pc[mark:] if k in ('wf', 'def', 'lib')]
+            if any(k not in ('wf', 'def', 'lib') for _, k in st.pc[mark:]):
+                raise Unsupported('case split inside a comprehension filter', node)
+            del st.pc[mark:]
+        finally:
+            st.decls.bound.pop()
+            st.env = saved
+        n = "(len %s)" % q
+        rng = mk_and(mk_le('0', j), mk_lt(j, n))
+        fj = "(%s %s)" % (f, j)
+        st.assume(mk_and(mk_le('0', n), mk_le(n, it['count'])), 'lib')
+        st.assume("(forall ((%s Int)) (! (=> %s (and (<= 0 %s) (< %s %s) (= (at %s %s) (at %s %s)) %s)) :pattern ((at %s %s))))"
+                  % (j, rng, fj, fj, it['count'], q, j, src, fj, mk_and(*(side + conds)), q, j), 'lib')
+        st.assume("(forall ((%s Int) (k Int)) (=> (and (<= 0 %s) (< %s k) (< k %s)) (< %s (%s k))))"
+                  % (j, j, j, n, fj, f), 'lib')
+        self.lib_assumptions.add('filtered list comprehension: order-preserving sub-sequence whose elements satisfy the filter (completeness not modelled)')
+        ety = refined.ty if refined.kind in ('ref', 'val') else self.elem_ty(it['sv'])
+        return SV('list', seq=q, owned=True, ty=frozenset([('list', ety)]))
